@@ -2,7 +2,8 @@
 import lib
 import cms_common as cc
 
-ALLOWED_AXIOMS = frozenset()
+import log_common as _L
+ALLOWED_AXIOMS = frozenset(_L.PRIMITIVES)   # Print Assumptions lists the kernel's primitive float/int operations under 'Axioms:'
 MANIFEST = dict(
     category="proof",
     text="Coq theorems for one add on ANY state with counters in range (so in particular every reachable state, incl. "
